@@ -1,7 +1,7 @@
 """C03 - placements honour partition, traits, server state, lease."""
 from mc.props import _cellprop
 from mc.props import _masterprop
-from mc.worlds import cellcfg, cellmon, mastercfg
+from mc.worlds import cellcfg, cellmon, mastercfg, mastermon
 
 BUDGET = {'quick': 240, 'thorough': 2400}
 DAY = 24 * 3600
@@ -10,9 +10,11 @@ DAY = 24 * 3600
 def _k2():
     cfg = cellcfg.k2()
     cfg['monitors'] = [cellmon.mon_c03]
+    cfg['templates']['once'] = {'prio': 50, 'demand': [2, 2, 2], 'aff': 'o',
+                                'alloc': 'a', 'once': True}
     cfg['events'] = cellcfg.ev(
         ('add', 'pl'), ('add', 't1'), ('add', 'p2'), ('add', 't2'),
-        ('add', 'hi'),
+        ('add', 'hi'), ('add', 'once'), ('move', 2, 'b'),
         ('rm', 0), ('prio', 0, 100), ('move', 0, 'b'), ('move', 1, 'b'),
         ('move', 0, 'a'),
         ('down', 's0'), ('up', 's0'), ('frz', 's1', -1), ('up', 's1'),
@@ -42,8 +44,12 @@ def _m2():
     allocations and servers events (Loader.reload_server, load_allocations)."""
     cfg = mastercfg.m2()
     cfg['cellmonitors'] = [cellmon.mon_c03]
+    cfg['monitors'] = [mastermon.mon_c03_zk]
+    cfg['templates']['once'] = {'memory': '2M', 'cpu': '2%', 'disk': '2M',
+                                'affinity': 'o', 'schedule_once': True}
     cfg['events'] = mastercfg.ev(
         ('app+', 'pl'), ('app+', 't1'), ('app+', 'tx'), ('app+', 'hi'),
+        ('app+', 'once'),
         ('app-', 0),
         ('alloc', 1), ('alloc', 2), ('alloc', 0),
         ('srv', 's0', 1), ('srv', 's0', 2), ('srv', 's0', 0),
